@@ -465,6 +465,16 @@ def r4_id_address(r, facts):
             e = ebb.operand(t['discr'])
             if e[0] == 'bin' and e[1] in ('Ne', 'Eq') and e[2][0] == 'bin' and e[2][1] == 'BitAnd' and any(y[0] == 'const' and y[1] == fbuf for y in (e[2][2], e[2][3])):
                 okg = True
+                # .. with the right polarity: Some(id) is built where the bit is set, None where it is not
+                vals = {int(v): tg for v, tg in t['targets']}
+                set_e = vals.get(1, t['otherwise']) if e[1] == 'Ne' else vals.get(0)
+                clr_e = vals.get(0) if e[1] == 'Ne' else vals.get(1, t['otherwise'])
+                somes = [l for l, s_ in b.assigns() if s_['rv']['k'] == 'agg' and s_['rv'].get('variant') == 'Some']
+                nones = [l for l, s_ in b.assigns() if s_['rv']['k'] == 'agg' and s_['rv'].get('variant') == 'None']
+                if set_e is not None and clr_e is not None and somes:
+                    wrong = b.forward_paths_hit([Loc(clr_e, 0)], somes) is not None or (nones and b.forward_paths_hit([Loc(set_e, 0)], nones, blockers=somes) is not None)
+                    r.inst('buf_id: Some(id) on the edge where IORING_CQE_F_BUFFER is set: %s' % (not wrong), b.where(b.term_loc(bb)))
+                    r.require(not wrong, 'buf_id/polarity', 'CompletionFlags::buf_id returns Some(id) when IORING_CQE_F_BUFFER is *not* set (and None when it is): completions that carry a pool buffer lose it, completions without one adopt buffer 0..', b.where(b.term_loc(bb)))
     for loc, s in b.assigns():
         e = ebb.rvalue(s['rv'])
         for x in subexprs(e):
@@ -586,11 +596,42 @@ def r6_selected_buffer_adopted(r, facts):
     r.floor(5, 'decoders with a buffer id')
 
 
+def r7_initial_offer(r, facts):
+    """ReadBufPool::new offers every buffer to the kernel: after the entries are written the ring tail is published once —
+    `ring_tail.store(pool_size, Release)` — on every path that returns the pool; no entry is written after it."""
+    f = facts.fn(POOL + '::new')
+    eb = ExprBuilder(f, multi='phi')
+    stores = [(loc, t) for loc, t in f.calls() if (t.get('callee') or '') == 'std::sync::atomic::Atomic::<u16>::store' and not f.blocks[loc[0]]['cleanup']]
+    writes = [loc for loc, t in f.calls() if (t.get('callee') or '') == 'std::mem::MaybeUninit::<T>::write' and not f.blocks[loc[0]]['cleanup']]
+    good = []
+    for loc, t in stores:
+        tgt = eb.operand(t['args'][0])
+        if not any(x[0] == 'call' and x[1] == POOL + '::ring_tail' for x in subexprs(tgt)):
+            continue
+        v = strip_casts(eb.operand(t['args'][1]))
+        o = fam.ordering_of(f, t['args'][2])
+        r.inst('initial ring tail = %s (Ordering::%s)' % (v, o), f.where(loc))
+        r.require((v[0] == 'arg' and v[2] == 'pool_size') or fam.last_field(v) == 'pool_size', 'new/tail-value', 'the initial ring tail is %s, not the number of buffers written (pool_size): the kernel sees fewer / more buffers than were offered' % (v,), f.where(loc))
+        r.require(fam.ord_ok('store', o), 'new/tail-ORD', 'the initial ring tail is published with Ordering::%s (needs Release: the entries must be visible before the tail)' % o, f.where(loc))
+        good.append(loc)
+        if t.get('target') is not None and writes:
+            hit = f.forward_paths_hit([Loc(t['target'], 0)], writes)
+            r.require(hit is None, 'new/tail-before-entries', 'ring entries are written after the tail was published', f.where(loc))
+    oks = [loc for loc, s_ in f.assigns() if s_['lhs']['l'] == 0 and s_['rv']['k'] == 'agg' and s_['rv'].get('variant') == 'Ok']
+    r.require(bool(writes), 'new/entries', 'no ring entry is written in ReadBufPool::new', f.where())
+    if r.require(bool(good), 'new/tail-published', 'ReadBufPool::new never publishes the ring tail: the kernel sees an empty buffer ring (every pool read fails with ENOBUFS)', f.where()) and oks:
+        hit = f.forward_paths_hit([Loc(0, 0)], oks, blockers=good)
+        r.require(hit is None, 'new/tail-published', 'a path through ReadBufPool::new returns the pool without publishing the ring tail', f.where(hit[0]) if hit else '')
+    r.floor(1)
+
+
+
 def check(ctx):
     ctx.run('C08.R1', 'owner pointer discipline: writers of ReadBuf.owned; change_size keeps the data pointer', r1_owner_pointer)
     ctx.run('C08.R2', 'release once: take() guards the pool release; Drop releases; not Clone/Copy', r2_release_once)
     ctx.run('C08.R3', 'pool side: entry write and tail store under reregister_lock, wrap-safe 16-bit tail, Release store last', r3_pool_side)
     ctx.run('C08.R4', 'id <-> address agreement between new / init_buffer / release; ids only from CompletionFlags::buf_id', r4_id_address)
+    ctx.run('C08.R7', 'the initial offer: every entry written, then the ring tail published (pool_size, Release) on every path that returns the pool', r7_initial_offer)
     ctx.run('C08.R6', 'a completion naming a pool buffer always hands it to a ReadBuf (no extra condition between buf_id() and buffer_init/new_buffer)', r6_selected_buffer_adopted)
     ctx.run('C08.R5', 'abandoned pool reads must give the selected buffer back', r5_abandoned)
 
